@@ -1,7 +1,10 @@
 # orchestrator configuration of the C17 check (loaded by tools/props.py)
+from stack import FULL_STACK, FULL_DEPS, QUIC_STACK, QUIC_DEPS, WT_STACK, WT_DEPS
+
 SPEC = dict(
     pkg="./harness/c17",
-    instrument=["./p2p/host/observedaddrs", "./p2p/host/eventbus"],
+    instrument=FULL_STACK + QUIC_STACK + WT_STACK,  # includes ./p2p/host/observedaddrs, ./p2p/host/basic, ./p2p/host/eventbus, identify
+    deps=FULL_DEPS + QUIC_DEPS + WT_DEPS,
     level="exploration",
     level_text=("seeded search over histories x schedules: connections, identify-completed events and disconnects fed to the "
                 "real (instrumented) observedaddrs.Manager and event bus under a scheduler that owns every lock, channel "
